@@ -376,7 +376,7 @@ def liveness_phase(run, prop, tier):
     dbg, cvfix = _dbgfixed if _dbgfixed is not None else True, _cvfix if _cvfix is not None else True
 
     def one(name):
-        conf = dict(muconfigs.FAM[name][0]); conf.setdefault("DbgFixed", dbg); conf.setdefault("CvFix", cvfix); conf.setdefault("TaFix", detect_tafix(exe))
+        conf = dict(muconfigs.FAM[name][0]); conf.setdefault("DbgFixed", dbg); conf.setdefault("CvFix", cvfix); conf.setdefault("TaFix", _tafix if _tafix is not None else True)
         tla, cfg = muconf.write_mc(MC, "live_" + name, conf, consts(), [], spec="FairSpecU", export=False, props=["Termination"])
         return name, tlc_plain(tla, cfg, workers=3, cwd=MC, timeout=3000)
     with cf.ThreadPoolExecutor(4) as ex:
